@@ -143,13 +143,42 @@ func sweepProgram(r *RNG, m *CfgModel, n int) string {
 		if len(mm.BlockParams) > 0 && r.Bool() {
 			call += " { |bx| bx }"
 		}
-		if r.Bool() {
+		switch r.Intn(6) {
+		case 0, 1:
 			fmt.Fprintf(&sb, "r%d = %s\n", i, call)
-		} else {
+		case 2:
 			fmt.Fprintf(&sb, "%s\n", call)
+		case 3: // the value is printed, then an unrelated assignment follows
+			fmt.Fprintf(&sb, "p(%s)\nzw%d = %s\n", call, i, Pick(r, []string{"{a: 1}", "\"s\"", "[1]", ":k", "1.5"}))
+		case 4: // conditional assignment on the call's result
+			fmt.Fprintf(&sb, "%s ||= %s\n", call, Pick(r, []string{"\"s\"", "1", "[1]"}))
+		default: // the receiver is grown destructively afterwards
+			fmt.Fprintf(&sb, "r%d = %s\nr%d.push(%s)\n", i, call, i, Pick(r, []string{"1", "\"s\"", ":k"}))
 		}
 	}
-	return sb.String()
+	body := sb.String()
+	switch r.Intn(5) {
+	case 0: // the same statements in a class body
+		return "class Zwbox\n" + body + "end\n"
+	case 1: // inside a method of a subclass of a builtin, with bare inherited names as receivers
+		parent := Pick(r, []string{"String", "Array", "Hash"})
+		mc := m.Classes["Builtin::"+parent]
+		var bare []string
+		for nm, ms := range mc.Instance {
+			if regexp.MustCompile(`^[a-z_]+$`).MatchString(nm) && len(ms[0].Params) == 0 {
+				bare = append(bare, nm)
+			}
+		}
+		sort.Strings(bare)
+		var extra strings.Builder
+		for k := 0; k < 3 && len(bare) > 0; k++ {
+			nm := Pick(r, bare)
+			fmt.Fprintf(&extra, "    %s.%s\n", nm, Pick(r, []string{"push(1)", "<< \"s\"", "to_s", "push(:k)"}))
+			fmt.Fprintf(&extra, "    zv%d = %s\n    zv%d = %s\n", k, nm, k, Pick(r, []string{"1", "{a: 1}", "\"s\""}))
+		}
+		return "class Zwsub < " + parent + "\n  def zwm\n" + extra.String() + "  end\nend\n" + body
+	}
+	return body
 }
 
 // probeBlock: calls whose type must not depend on what was analysed before.
